@@ -499,7 +499,9 @@ func drawLayers(rt *rapid.T) (Case, bool) {
 }
 
 func drawAny(rt *rapid.T) (Case, bool) {
-	switch rapid.IntRange(0, 7).Draw(rt, "kind") {
+	switch rapid.IntRange(0, 9).Draw(rt, "kind") {
+	case 8, 9:
+		return drawHistory(rt)
 	case 0:
 		return drawPoint(rt)
 	case 1, 2:
